@@ -486,6 +486,14 @@ impl EndpointConfigBuilder {
         (certificate_der, key_der)
     }
 
+    #[cfg(bmwill_anemo_verif)]
+    pub(crate) fn verif_generate_cert(
+        keypair: &ed25519::KeypairBytes,
+        server_name: &str,
+    ) -> (CertificateDer<'static>, PrivateKeyDer<'static>) {
+        Self::generate_cert(keypair, server_name)
+    }
+
     fn server_config(
         certs: Vec<(String, CertificateDer<'static>)>,
         pkcs8_der: PrivateKeyDer<'static>,
